@@ -25,7 +25,9 @@ def histogram(line):
     m = 0 if mat == "-" else mat.count("/") + 1
     l = 0 if seq == "-" else len(seq)
     keys = ["kind=" + f.get("kind", "?"), "well_conditioned=" + f.get("wc", "?"),
-            "M<=%d" % (8 * ((m + 7) // 8)), "L<=%d" % (64 * ((l + 63) // 64))]
+            "alphabet=" + ("protein" if f.get("alpha") == "P" else "dna"),
+            ("M<=%d" % (8 * ((m + 7) // 8))) if m <= 64 else ("M<=%d" % (500 * ((m + 499) // 500))),
+            "L<=%d" % (64 * ((l + 63) // 64)) if l <= 704 else "L>704"]
     if "N" in seq:
         keys.append("seq-has-wildcard")
     if l < m:
@@ -33,6 +35,13 @@ def histogram(line):
     if mat != "-" and not mat.endswith("4286578688"):
         keys.append("wildcard-column-not-neg-inf")
     return keys
+
+
+def translate():
+    # coq/disc/GenDiscU8.v: motif-loop statements, wrapper guards and dispatcher arms of the u8 kernels,
+    # regenerated from avx2.rs / neon.rs / dispatch.rs / pli/mod.rs on every check
+    from translate import disc_u8
+    return disc_u8.run()
 
 
 SPEC = dict(
@@ -46,7 +55,11 @@ SPEC = dict(
     search_n={"quick": 4000, "thorough": 60000},
     nontrivial=nontrivial,
     histogram=histogram,
-    rule="DNA scoring matrices of width 0..40 (thorough: ..64) given as f32 bit patterns: CountMatrix->to_freq->"
+    translate=translate,
+    rule="88% DNA cases, 12% Protein cases (K=21: counts->to_freq->to_scoring, arbitrary finite, ties, constant; X column -inf or "
+         "finite; only Pipeline::generic()/sse2() exist for Protein u8 scoring), 3% (thorough 1%) wide DNA motifs of 100..700 "
+         "(thorough ..2000) rows on a sequence a few symbols longer than the consensus word. "
+         "DNA scoring matrices of width 0..40 (thorough: ..64) given as f32 bit patterns: CountMatrix->to_freq->"
          "to_scoring (25%), arbitrary finite cells (30%), half-integers with ties/constant rows/signed zeros (12%), "
          "constant matrices (5%), arbitrary finite bit patterns (8%), ill-conditioned (3%, the known IEEE gap), "
          "matrices around the boundary of the conditioning predicate (7%), non-finite non-wildcard cells (4%, "
@@ -64,7 +77,13 @@ SPEC = dict(
          "arm (sequence striped under that arm) and score_rows_into over a random row range. Property checker "
          "(extracted first_bad / check_C08, proved equivalent to the property) on the implementation's own "
          "numbers: for every position and every source of a byte score, byte score >= scale(real score); all arms "
-         "equal cell-wise. In addition the extracted first_bad_impl / check_C08_impl (C08_check_impl_sound) judges the "
+         "equal cell-wise; also Pipeline::sse2() (u8) at 32 columns and the generic/SSE2 pipelines on a 16-column layout. The "
+         "model side of the u8 kernels is GENERATED from the source on every check (translate/disc_u8.py -> GenDiscU8.v: motif-loop "
+         "statements of score_u8_avx2_shuffle / score_u8_neon as register operations, wrapper guards in source order, u8 arms "
+         "of the dispatcher, Score<u8> impls of the static pipelines); the NEON kernel (not compiled on x86) is tied by the "
+         "translator + C08_neon_eq_generic and evaluated against the generic model on every DNA case. For DNA motifs wider "
+         "than 64 rows the driver computes the generic expectation with the lane kernel proved equal to it. "
+         "In addition the extracted first_bad_impl / check_C08_impl (C08_check_impl_sound) judges the "
          "implementation's OWN images, not the model's: dm.scale(real score of position i) <= byte score, and for "
          "every threshold t_j with t_j <= real score (IEEE <= on the observed bit patterns) dm.scale(t_j) <= byte "
          "score (PROPFAIL threshold-transfer-lost), so that a wrong scale() is a failing input and not only a DIFF. "
@@ -76,6 +95,10 @@ SPEC = dict(
         "Flocq 4.1.0 (BinarySingleNaN) as the definition of binary32 arithmetic, coq/base/IEEE.v wrappers "
         "(saturating casts, NaN canonicalisation)",
         "extraction: ExtrOcamlBasic only (nat, Z, positive, list kept as extracted inductives); OCaml 4.13.1",
+        "translate/disc_u8.py (regex / brace-matching extraction from avx2.rs, neon.rs, dispatch.rs, pli/mod.rs; unknown "
+        "statement shapes are an error) and the semantics given to the intrinsics in coq/disc/DiscU8Kernel.v "
+        "(_mm256_shuffle_epi8, _mm256_adds_epu8 / _mm256_add_epi8, vqtbl1q_u8, vqaddq_u8 / vaddq_u8, 16-byte table loads); "
+        "NEON code is never executed by the check",
         "hand-written OCaml driver ocaml/disc/driver.ml (parsing, printing, comparison, selection of the byte "
         "score of position i as cell (i mod rows, i / rows))",
         "Rust harness harness/src/bin/disc.rs (generator, catch_unwind around every library call, factor/offset/"
